@@ -208,6 +208,38 @@ theorem C05_no_panic_obj (demangle : Name → Name) (d : Desc) (ranges : List Ra
     · simp
     · simp
 
+/-- Completeness (no spurious miss), at full strength: for every description, every lookup address that
+stands for a relative address `rel` and every pair of consecutive entries `e`, `nxt` of the list with
+`e.addr ≤ rel < nxt.addr`: if `e` carries a name the lookup answers, with exactly that entry (start,
+distance to the next entry, demangled name). Together with `C05_contains_obj` / `C05_greatest_obj` this
+characterises the answer completely: a lookup answers nothing only if the address form stands for no relative
+address, or no entry starts at or before `rel`, or the greatest such entry is an end marker / has an unreadable
+name, or it is the last entry of the list. -/
+theorem C05_complete_obj (demangle : Name → Name) (framesPanic : Nat → Bool) (d : Desc) (ranges : List Range)
+    (a : Addr) (svma rel : Nat) (hto : toSvmaRel ⟨build d, d.base, ranges⟩ a = .hit (svma, rel))
+    (i : Nat) (e nxt : Entry) (n : Name) (he : (build d)[i]? = some e) (hn : (build d)[i + 1]? = some nxt)
+    (hname : e.kind.name e.addr = some n) (h1 : e.addr ≤ rel) (h2 : rel < nxt.addr)
+    (hf : framesPanic svma = false) :
+    lookupSync demangle framesPanic ⟨build d, d.base, ranges⟩ a
+      = .hit ⟨e.addr, some (nxt.addr - e.addr), demangle n⟩ := by
+  have hrel := lookupRel_complete (build_strict d) he hn hname h1 h2
+  unfold lookupSync
+  rw [hto]
+  simp only [lookupRelInfo, hrel]
+  rw [if_neg (by omega)]
+  simp [hf]
+
+/-- Corollary in terms of the map's own enumeration: a lookup at the start of an enumerated symbol answers
+with that symbol (demangled), unless the symbol is the very last entry of the list. -/
+theorem C05_complete_obj_enumerated (demangle : Name → Name) (d : Desc) (s : Nat) (n : Name)
+    (hmem : (s, n) ∈ iterSymbols (build d)) (hnl : ∃ x ∈ build d, s < x.addr) :
+    ∃ size, 0 < size ∧ lookupRelInfo demangle (build d) s = .hit ⟨s, some size, demangle n⟩ := by
+  obtain ⟨e, hrel, hlt⟩ := lookupRel_at_enumerated (build_strict d) hmem hnl
+  refine ⟨e - s, by omega, ?_⟩
+  simp only [lookupRelInfo, hrel]
+  rw [if_neg (by omega)]
+
+
 end Obj
 
 /-! ## Breakpad -/
@@ -273,6 +305,18 @@ theorem C05_no_panic_bp (f : File) (ix : List Entry) (a : Addr) : lookup f ix a 
   | rel a => exact lookupRel_no_panic f ix a
   | svma _ => simp [lookup]
   | fileOffset _ => simp [lookup]
+
+/-- Completeness (no spurious miss): in every strictly sorted index, the slot `e` with the greatest address
+`≤ a` (its successor, if any, lies above `a`) answers: a readable PUBLIC record always (size = distance to
+the next symbol address, none for the last), a readable FUNC record for every address of its own range. -/
+theorem C05_complete_bp (f : File) (ix : List Entry) (hs : StrictSorted ix) (i : Nat) (e : Entry) (a : Nat)
+    (he : ix[i]? = some e) (h1 : e.addr ≤ a) (h2 : ∀ nxt, ix[i + 1]? = some nxt → a < nxt.addr) :
+    (∀ n, e.kind = .public_ → f.pubAt e.offset = some n →
+      lookup f ix (.rel a) = .hit ⟨e.addr, (ix[i + 1]?).map (fun nxt => nxt.addr - e.addr), n⟩) ∧
+    (∀ size n, e.kind = .func → f.funcAt e.offset = some (size, n) → a < e.addr + size →
+      lookup f ix (.rel a) = .hit ⟨e.addr, some size, n⟩) :=
+  lookupRel_complete hs he h1 h2
+
 
 end Bp
 
@@ -418,6 +462,22 @@ theorem C05_no_panic_jit (entries : List Entry) (ix : Index) (hw : WF entries)
       obtain ⟨e, he, _⟩ := lookupOffset_hit hb hloc
       exact getElem?_lt he
 
+/-- Completeness (no spurious miss): every code byte of every record whose name can be read is answered,
+by relative address and by file offset, with that record (start, code length, stored name). -/
+theorem C05_complete_jit (entries : List Entry) (ix : Index) (hw : WF entries)
+    (hb : buildIndex entries = some ix) (i : Nat) (e : Entry) (s k : Nat) (n : Name)
+    (hei : entries[i]? = some e) (hsi : ix.rels[i]? = some s) (hk : k < e.len) (hname : e.name = some n) :
+    lookup ix (.rel (s + k)) = .hit ⟨s, some e.len, n⟩ ∧
+    lookup ix (.fileOffset (e.codeOff + k)) = .hit ⟨s, some e.len, n⟩ := by
+  obtain ⟨h1, h2⟩ := locate_forms hb hw.small hw.layout hei hsi hk
+  obtain ⟨hent, _⟩ := buildIndex_spec hb
+  have hsm := hw.small e (List.mem_of_getElem? hei)
+  have hnm : nameAt ix i = some n := by simp [nameAt, hent, hei, hname]
+  constructor
+  · simp [lookup, locate, h2, hnm, answer, hent, hei, Nat.mod_eq_of_lt hsm]
+  · simp [lookup, locate, h1, hnm, answer, hent, hei, Nat.mod_eq_of_lt hsm]
+
+
 end Jit
 
 /-! ## non-vacuity: concrete inputs satisfy the hypotheses, and the conclusions are the expected numbers -/
@@ -439,6 +499,40 @@ example : lookupRel C05_exEntries 0x1400 = .miss := by decide
 example : lookupRel C05_exEntries 0xfff = .miss := by decide
 example : lookupSync id (fun _ => false) ⟨C05_exEntries, 0x200000, [⟨0x200000, 0, 0x2000⟩]⟩ (.fileOffset 0x1011)
     = .hit ⟨0x1010, some 0x20, [97]⟩ := by decide
+
+/-- the description that list comes from, through the filters, conversions, stable sort and dedup of `build`:
+image base 0x200000, one text section (index 1) 0x201000..0x201400, `alpha` FUNC size 0x20, `beta` FUNC unsized,
+an OBJECT symbol (dropped), a NOTYPE symbol (dropped), `alpha` again in `.dynsym` (loses against `.symtab`) -/
+def C05_exDesc : Desc where
+  base := 0x200000
+  execSections := [1]
+  symbols := [⟨0x201040, 0, .text, some 1, some [98]⟩, ⟨0x201010, 0x20, .text, some 1, some [97]⟩,
+              ⟨0x201100, 8, .other, some 1, some [99]⟩, ⟨0x201200, 0, .label, some 1, some [100]⟩]
+  dynSymbols := [⟨0x201010, 0x20, .text, some 1, some [97, 97]⟩]
+  exports := none
+  funcStarts := none
+  entry := 0x201000
+  textSections := [(0x201000, 0x400)]
+  funcEnds := none
+
+/-- `build` of that description is that list (mergeSort evaluated by `simp`), and lookups through `build` hit
+in all three address forms (the hypotheses of `C05_contains_obj` / `C05_complete_obj` are satisfiable) -/
+example : build C05_exDesc = C05_exEntries ∧
+    lookupSync id (fun _ => false) ⟨build C05_exDesc, C05_exDesc.base, [⟨0x200000, 0, 0x2000⟩]⟩ (.rel 0x102f)
+      = .hit ⟨0x1010, some 0x20, [97]⟩ ∧
+    lookupSync id (fun _ => false) ⟨build C05_exDesc, C05_exDesc.base, [⟨0x200000, 0, 0x2000⟩]⟩ (.svma 0x20102f)
+      = .hit ⟨0x1010, some 0x20, [97]⟩ ∧
+    lookupSync id (fun _ => false) ⟨build C05_exDesc, C05_exDesc.base, [⟨0x200000, 0, 0x2000⟩]⟩ (.fileOffset 0x102f)
+      = .hit ⟨0x1010, some 0x20, [97]⟩ := by
+  have hp : parts C05_exDesc = [⟨0x1040, .symbol (some [98])⟩, ⟨0x1010, .symbol (some [97])⟩,
+      ⟨0x1010, .symbol (some [97, 97])⟩, ⟨0x1000, .entryPoint⟩, ⟨0x1400, .endAddress⟩, ⟨0x1030, .endAddress⟩] := by
+    decide
+  have hb : build C05_exDesc = C05_exEntries := by
+    unfold build
+    rw [hp]
+    simp [sortEntries, List.mergeSort, List.MergeSort.Internal.splitInTwo, dedup, dedupAux, C05_exEntries]
+  rw [hb]
+  decide
 
 def C05_exJit : List JitDump.Entry := [⟨98, 5, some [97]⟩, ⟨161, 7, some [98]⟩]
 
